@@ -289,9 +289,16 @@ def typed_text(P, R, rule='C16.GRD.5'):
 def parsed_on_success(P, R):
     sv = P.need_fn('conf_parse_string_value')
     cps = [s for s in sv.calls('memcpy') if on_path(s.ev['args'][0], 'parsed')]
+    # the flag the typed parsers report through: the local whose address they are handed
+    succ = set()
+    for t in sv.calls():
+        if (t.ev.get('callee') or '').startswith('conf_parse_') and len(t.ev['args']) >= 2:
+            a = t.ev['args'][1]
+            if isinstance(a, dict) and a.get('k') == 'un' and a.get('op') == '&' and is_var(a.get('e')):
+                succ.add(a['e']['name'])
     for s in cps:
         gs = sv.guards(s.bid)
-        ok = any(is_var(g[0], 'success') and g[1] == '!=' and const_of(g[2]) == 0 for g in gs)
+        ok = any(is_var(g[0]) and g[0]['name'] in succ and g[1] == '!=' and const_of(g[2]) == 0 for g in gs)
         R.ob('C16.GRD.2', ok, s, 'the parsed value is replaced only when the typed parser reported success', key='parsed-on-success')
     R.floor('C16.GRD.2', 1)
     # each subtype calls its own parser
@@ -304,7 +311,7 @@ def parsed_on_success(P, R):
                 for nm, fn in want.items():
                     if en.get(nm) in e.vs and len(e.vs) == 1:
                         calls = [t for t in sv.block_sites(sv.case_body(e.dst)) if t.ev['k'] == 'call']
-                        ok = bool(calls) and calls[0].ev.get('callee') == fn and any(is_var(a.get('e', {}), 'success') for a in calls[0].ev['args'] if isinstance(a, dict))
+                        ok = bool(calls) and calls[0].ev.get('callee') == fn and any(is_var(a.get('e', {})) and a['e']['name'] in succ for a in calls[0].ev['args'] if isinstance(a, dict) and a.get('k') == 'un')
                         R.ob('C16.GRD.2', ok, calls[0] if calls else sv, 'subtype %s is parsed by %s and reports through success' % (nm, fn), key='subtype:%s' % nm, nontrivial=False)
 
 
